@@ -11,8 +11,8 @@ from mirsym.values import *
 from mirsym.summaries import S
 from progsym import str_const
 
-INPUT = "a\nbécdefgh".encode()           # boundaries: 0 1 2 3 5 6 7 8 9 10 11
-BOUND = [0, 1, 2, 3, 5, 6, 7, 8, 9, 10, 11]
+INPUT = "é\nüxcdefgh".encode()          # a two-byte character before a pair on a terminated line and on the last, unterminated line
+BOUND = [0, 2, 3, 5, 6, 7, 8, 9, 10, 11, 12]
 
 
 # ---------------------------------------------------------------- trees
